@@ -212,6 +212,47 @@ def rule_d(ctx: Ctx) -> None:
                      "a worker object with per-call mutable state is shared process-wide")
     else:
         ctx.ok("no shared worker instances", {"modules_scanned": len(fx["loaded_modules"]), "shared_workers": 0})
+    # S1 generalisation: any module-/class-level instance of a package class whose methods write their own attributes at work
+    # (per-call state on a process-wide object), whatever the class is called
+    repo = ctx.repo
+    expr_names = set(fx["expr_classes"]) | {"Expr", "Expression"}
+    stateful: dict[str, str] = {}
+    for c in repo.all_classes():
+        if c.name in expr_names or any(x.name in expr_names or x.name in ("Enum", "AutoName") for x in repo.mro(c)):
+            continue
+        for mname, md in c.methods().items():
+            if mname.startswith("__") and mname.endswith("__"):
+                continue
+            if any(isinstance(dec, ast.Name) and dec.id in ("classmethod", "staticmethod") for dec in md.decorator_list):
+                continue
+            for x in walk_no_nested(md):
+                if isinstance(x, ast.Attribute) and isinstance(x.ctx, ast.Store) and isinstance(x.value, ast.Name) and x.value.id == "self":
+                    stateful.setdefault(c.key, f"{mname} assigns self.{x.attr}")
+                elif isinstance(x, ast.Call) and isinstance(x.func, ast.Attribute) and x.func.attr in MUTATORS and isinstance(x.func.value, ast.Attribute) \
+                        and isinstance(x.func.value.value, ast.Name) and x.func.value.value.id == "self":
+                    stateful.setdefault(c.key, f"{mname} mutates self.{x.func.value.attr}")
+    n_inst = 0
+    for m in repo.modules.values():
+        if m.name.startswith(("sqlglot.executor",)):
+            continue
+        scopes: list[tuple[str, list[ast.stmt]]] = [(f"{m.name}:<module>", m.tree.body)] + [(c.key, c.node.body) for c in m.classes.values()]
+        for where, body in scopes:
+            for st in body:
+                if not (isinstance(st, (ast.Assign, ast.AnnAssign)) and isinstance(getattr(st, "value", None), ast.Call)):
+                    continue
+                cn = call_name(st.value) or ""
+                k = repo.resolve_class(m, cn) if cn else None
+                if k is None:
+                    continue
+                n_inst += 1
+                tgt = norm(st.targets[0] if isinstance(st, ast.Assign) else st.target)
+                if k.key in stateful:
+                    ctx.fail(m, st, where, f"{tgt} = {cn}(...)",
+                             f"a process-wide instance of {k.name}, whose methods keep per-call state on the object ({stateful[k.key]}): two threads using it at the same "
+                             f"time read each other's intermediate state")
+                else:
+                    ctx.ok(f"{where}|{tgt} = {cn}(...)", {"instance_of": k.key, "stateful_methods": 0})
+    ctx.count("module_or_class_level_instances", n_inst)
     d = ctx.repo.cls("sqlglot.dialects.dialect", "Dialect")
     meths = d.methods()
     for name, attr in (("tokenizer", "tokenizer_class"), ("parser", "parser_class"), ("generator", "generator_class")):
@@ -297,7 +338,98 @@ def _all(ctx: Ctx) -> None:
     rule_e(ctx, writes)
 
 
-RULES = [_all]
+def rule_f(ctx: Ctx) -> None:
+    ctx.rule("C19.f", "lock order of the lazy package hooks: a PEP 562 hook takes its package lock and then imports a target module (importlib's module lock); "
+                      "no module that can be executing while such a target module is being imported may resolve a lazy attribute through the same hook "
+                      "(`from <package> import <lazy name>`), which would take the two locks in the opposite order")
+    repo = ctx.repo
+    n_hooks = n_imports = 0
+    for pkg in repo.modules.values():
+        hook = pkg.funcs.get("__getattr__")
+        if hook is None or not pkg.path.name == "__init__.py":
+            continue
+        if not any(isinstance(w, ast.With) for w in walk_no_nested(hook.node)):
+            continue  # a hook without a lock has no lock order
+        n_hooks += 1
+        # names bound eagerly in the package namespace (not resolved by the hook)
+        eager: set[str] = set()
+        for st in pkg.tree.body:
+            if isinstance(st, (ast.Assign, ast.AnnAssign)):
+                for tg in (st.targets if isinstance(st, ast.Assign) else [st.target]):
+                    for x in ast.walk(tg):
+                        if isinstance(x, ast.Name):
+                            eager.add(x.id)
+            elif isinstance(st, (ast.FunctionDef, ast.ClassDef)):
+                eager.add(st.name)
+            elif isinstance(st, (ast.Import, ast.ImportFrom)):
+                for a in st.names:
+                    eager.add((a.asname or a.name).split(".")[0])
+        # modules the hook may import: the package's submodules; closure under module-level imports
+        targets = {n for n in repo.modules if n.startswith(pkg.name + ".")}
+        closure = set(targets)
+        work = list(targets)
+        while work:
+            mn = work.pop()
+            mm = repo.modules[mn]
+            for st in mm.tree.body:
+                stmts = [st]
+                if isinstance(st, (ast.If, ast.Try)):
+                    if isinstance(st, ast.If) and "TYPE_CHECKING" in norm(st.test):
+                        continue
+                    stmts = [x for x in ast.walk(st) if isinstance(x, (ast.Import, ast.ImportFrom))]
+                for imp in stmts:
+                    names: list[str] = []
+                    if isinstance(imp, ast.Import):
+                        names = [a.name for a in imp.names]
+                    elif isinstance(imp, ast.ImportFrom):
+                        base = imp.module or ""
+                        if imp.level:
+                            parts = mn.split(".")
+                            if mm.path.name != "__init__.py":
+                                parts = parts[:-1]
+                            parts = parts[: len(parts) - (imp.level - 1)]
+                            base = ".".join(parts + ([base] if base else []))
+                        names = [base] + [f"{base}.{a.name}" for a in imp.names]
+                    for nm in names:
+                        while nm and nm not in repo.modules:
+                            nm = nm.rpartition(".")[0]
+                        if nm and nm not in closure and nm != pkg.name:
+                            closure.add(nm)
+                            work.append(nm)
+        # any import of a lazy name through the hook from inside the closure (module level or inside a function)
+        for mn in sorted(closure):
+            mm = repo.modules[mn]
+            for imp in mm.of_type(ast.ImportFrom):
+                base = imp.module or ""
+                if imp.level:
+                    parts = mn.split(".")
+                    if mm.path.name != "__init__.py":
+                        parts = parts[:-1]
+                    parts = parts[: len(parts) - (imp.level - 1)]
+                    base = ".".join(parts + ([base] if base else []))
+                if base != pkg.name:
+                    continue
+                p_ = mm.parent(imp)
+                if isinstance(p_, ast.If) and "TYPE_CHECKING" in norm(p_.test):
+                    continue
+                for a in imp.names:
+                    n_imports += 1
+                    f = mm.enclosing_func(imp)
+                    where = f.key if f else f"{mn}:<module>"
+                    inst = f"{where}|from {pkg.name} import {a.name}"
+                    if a.name in eager:
+                        ctx.ok(inst, {"import": f"from {pkg.name} import {a.name}", "in": where, "resolved": "eagerly bound in the package namespace (no hook, no lock)"})
+                    else:
+                        ctx.fail(mm, imp, where, f"from {pkg.name} import {a.name}",
+                                 f"`{a.name}` is resolved by {pkg.name}.__getattr__, which takes the package lock; {mn} can be executing while a module of {pkg.name} is being "
+                                 f"imported by name (importlib's module lock held), so this import takes the two locks in the opposite order to the hook: two threads making the "
+                                 f"first use of that module through the two routes deadlock. Import the name from its defining submodule instead")
+    ctx.count("locked_hooks", n_hooks)
+    ctx.count("package_imports_in_closure", n_imports)
+    ctx.min_instances("locked_hooks", n_hooks, 2)
+
+
+RULES = [_all, rule_f]
 EXPLANATION = (
     "Static race discipline over the complete inventory of process-wide mutable state (module globals, class "
     "attributes, globals()) found by a whole-package write scan: lock coverage of the lazy-import hooks, "
